@@ -4,6 +4,7 @@ from __future__ import annotations
 import asyncio
 import json
 import os
+import re
 
 from harness import httpfam as H
 from harness import httpresp as R
@@ -270,9 +271,11 @@ def run(ctx):
             elif loop.exceptions:
                 ctx.violation(case, f"loop exception handler called: {loop.exceptions[0].get('message')} {loop.exceptions[0].get('exception')!r}")
                 loop.exceptions.clear()
-            elif not out.startswith(b"HTTP/1.") or out[9:12] != b"400" or not closed:
-                # the last response on the connection must be a 400 and the transport closed
-                last = out.rfind(b"HTTP/1.")
+            elif not re.match(rb"HTTP/\d\.\d 400 ", out) or not closed:
+                # the last response on the connection must be a 400 and the transport closed (the status line
+                # repeats the request's version digits, e.g. 'HTTP/2.0 400': not this property's business)
+                heads = [m.start() for m in re.finditer(rb"HTTP/\d\.\d \d\d\d ", out)]
+                last = heads[-1] if heads else -1
                 if last < 0 or out[last + 9:last + 12] != b"400" or not closed:
                     ctx.violation(case, f"unparsable request not answered with 400+close: closed={closed} out={out[:120]!r}")
         ctx.sample({"suite": "server", "stream": s.hex()[:200]})
